@@ -1,9 +1,9 @@
 from common import ENUMX_ASSUME, SCHEDX_ASSUME
 
-CHECK = {'pkgs': ['dkg'],
+CHECK = {'pkgs': ['dkg', 'dkg/pedersen'],
  'libs': ['enumx', 'schedx', 'vsync'],
  'vsync': ['dkg/frostp2p.go'],
- 'run': 'TestVerifC11',
+ 'run': {'dkg': 'TestVerifC11', 'dkg/pedersen': 'TestVerifC11P'},
  'level': 'exploration',
  'engine': 'enumx',
  'technique': 'small-scope exhaustive enumeration against the real code, two parts. Part one: ceremony configurations and round-barrier '
